@@ -50,9 +50,8 @@ impl<'a> SessionData<'a> {
                     return Ok(false);
                 }
                 runtime.send_quota = runtime
-                    .send_quota
-                    .saturating_add(1)
-                    .min(runtime.max_send_quota);
+                    .max_send_quota
+                    .saturating_sub(self.outbound.inflight_publishes());
                 debug!(
                     "Processed PUBACK packet_id={=u16} send_quota={=u16}",
                     ack.packet_id, runtime.send_quota
@@ -66,9 +65,8 @@ impl<'a> SessionData<'a> {
                         // only a failing PUBREC ends the exchange (and frees the slot) here.
                         if rec.reason.code().failed() {
                             runtime.send_quota = runtime
-                                .send_quota
-                                .saturating_add(1)
-                                .min(runtime.max_send_quota);
+                                .max_send_quota
+                                .saturating_sub(self.outbound.inflight_publishes());
                         }
                         debug!(
                             "Processed PUBREC packet_id={=u16} send_quota={=u16}",
@@ -109,9 +107,8 @@ impl<'a> SessionData<'a> {
                     return Ok(false);
                 }
                 runtime.send_quota = runtime
-                    .send_quota
-                    .saturating_add(1)
-                    .min(runtime.max_send_quota);
+                    .max_send_quota
+                    .saturating_sub(self.outbound.inflight_publishes());
                 debug!(
                     "Processed PUBCOMP packet_id={=u16} send_quota={=u16}",
                     comp.packet_id, runtime.send_quota
